@@ -226,7 +226,7 @@ def c2_lsp(rep, cov, recs):
         lines = text.split("\n")
         ok = False
         seen = []
-        for code, line, ch in hit:
+        for code, line, ch, eline, ech in hit:
             rest = lines[line][ch:] if line < len(lines) and ch <= len(lines[line]) else None
             seen.append(None if rest is None else rest[:20])
             if rest is None:
@@ -234,6 +234,12 @@ def c2_lsp(rep, cov, recs):
             starts = set(t for t in targets if t != "<call>") | (insts if "<call>" in targets else set())
             if any(rest.startswith(t) and not (rest[len(t):len(t) + 1].isalnum() or rest[len(t):len(t) + 1] == "_") for t in starts):
                 ok = True
+            # ... and the range COVERS text: it ends after it starts, inside the document, and what it covers starts with the
+            # lexeme it starts at (a range that ends where it starts covers nothing)
+            if (eline, ech) <= (line, ch) or eline >= len(lines) or ech > len(lines[eline]):
+                rep.add("lsp-range-is-empty-or-ends-outside-the-document:%s" % e[0].split(":")[1], labels={e[0], "lsp"},
+                        detail={"edit": e, "range": [[line, ch], [eline, ech]]}, replay={"text": text})
+                break
         if not ok:
             rep.add("lsp-range-does-not-start-at-the-construct:%s" % e[0].split(":")[1], labels={e[0], "lsp"},
                     detail={"edit": e, "allowed_lexemes": sorted(targets), "text_at_range_start": seen, "diagnostics": hit}, replay={"text": text})
